@@ -1,4 +1,4 @@
-(* Correspondence driver for files.go, gob.go, Map.Copy, Json()'s rewrite and the getJson scanner (C19). *)
+(* Correspondence driver for files.go, gob.go, Map.Copy, Json() and the getJson scanner (C19). *)
 From Mxj Require Export Model.Files Spec.FilesSpec.
 
 (* one observed call of the real one-document reader on the open file:
@@ -38,10 +38,11 @@ Inductive fcase :=
 | CHyp (docs : list (nat * value * bytes)) (tbl : list step) (reads_claim raw_claim : bool)
 (* XmlFile / XmlFileIndent / JsonFile (ij = false), JsonFileIndent (ij = true) *)
 | CWrite (ij : bool) (encs : list (option bytes)) (creatable : bool) (content : option bytes) (err : bool)
-(* Map.Json(safe): json.Marshal's bytes, Json's bytes *)
-| CJson (marshal : bytes) (safe : bool) (out : bytes)
-(* Map.Copy: json.Marshal's bytes and error flag, the bytes handed to the decoder and what it returned, Copy's result *)
-| CCopy (marshal : bytes) (merr : bool) (jarg : bytes) (dec : dres) (out : dres)
+(* Map.Json(safe): what a json.Encoder with SetEscapeHTML(safe) wrote for the Map, Json's bytes *)
+| CJson (encout : bytes) (safe : bool) (out : bytes)
+(* Map.Copy: the encoder's output (None = error), the bytes handed to the decoder and the first value it
+   returned (any kind), Copy's result *)
+| CCopy (encout : option bytes) (jarg : bytes) (dec : dres) (out : dres)
 (* Map.Gob / NewMapGob: whether Gob succeeded, what NewMapGob returned for its bytes *)
 | CGob (m : value) (enc_ok : bool) (dec : dres)
 (* NewMapGob on the empty byte string *)
@@ -72,7 +73,7 @@ Definition dres_eqb (a b : dres) : bool :=
 Fixpoint reads_ok (docs : list (nat * value * bytes)) (tbl : list step) (off : nat) : bool :=
   match docs with
   | [] => match lookup_step tbl off with
-          | Some x => rerr_eqb (st_err x) REOF && negb (map_len_pos (st_map x))
+          | Some x => rerr_eqb (st_err x) REOF && negb (map_not_nil (st_map x))
           | None => false
           end
   | (len, v, _) :: t =>
@@ -97,7 +98,7 @@ Definition scan_obs (input : bytes) : bytes * rerr * nat :=
   | SDoc jb rest => (jb, RNil, length input - length rest)
   | SEof jb => (jb, REOF, length input)
   | SNoClose jb => (jb, ROther, length input)
-  | SNilErr => ([], RPanic, 0)
+  | SStray jb rest => (jb, ROther, length input - length rest)
   end.
 
 Definition check_fcase (c : fcase) : bool :=
@@ -119,10 +120,10 @@ Definition check_fcase (c : fcase) : bool :=
   | CWrite ij encs creatable content err =>
       let (c', e') := maps_file (fun x : option bytes => x) ij encs creatable in
       obytes_eqb c' content && Bool.eqb e' err
-  | CJson marshal safe out =>
-      str_eqb (fst (map_json (fun _ => (marshal, false)) safe VNil)) out
-  | CCopy marshal merr jarg dec out =>
-      dres_eqb (dres_of (map_copy (fun _ => (marshal, merr))
+  | CJson encout safe out =>
+      obytes_eqb (map_json (fun _ _ => Some encout) safe VNil) (Some out)
+  | CCopy encout jarg dec out =>
+      dres_eqb (dres_of (map_copy (fun _ _ => encout)
                                   (fun j => if str_eqb j jarg then res_of dec else Panic) VNil)) out
   | CGob m enc_ok dec =>
       Bool.eqb (gob_encodable m) enc_ok &&
